@@ -65,6 +65,9 @@ var decPreludes = func() []decPrelude {
 			if p == "p1" && (k == "json" || k == "shapejson" || k == "cbor" || k == "shapecbor") {
 				out = append(out, decPrelude{k, "xp2", "floodsweep"})
 			}
+			if p == "p1" && (k == "json" || k == "cbor") {
+				out = append(out, decPrelude{k, "p1", "listflood"}, decPrelude{k, "p2", "listflood"})
+			}
 			if k != "json" && k != "shapejson" {
 				out = append(out, decPrelude{k, p, "headsweep"})
 			}
@@ -84,7 +87,19 @@ func (decWorld) Gen(prop, tier string, idx int, r *Rng) *Trace {
 		if tier == "quick" {
 			stride = 5
 		}
-		ops := []Op{{K: "deliver", T: "m0"}, {K: p.sweep, T: "m0", B: stride, A: idx % stride}}
+		if p.sweep == "listflood" {
+			// a claims-set with a long component list
+			for len(cfg.Claims[0].Sw) < 150 {
+				cfg.Claims[0].Sw = append(cfg.Claims[0].Sw, genSw(r))
+			}
+			cfg.Claims[0].NoMeas = nil
+			cfg.Claims[0].SwNil = false
+		}
+		sweepKind := p.sweep
+		if sweepKind == "listflood" {
+			sweepKind = "floodsweep"
+		}
+		ops := []Op{{K: "deliver", T: "m0"}, {K: sweepKind, T: "m0", B: stride, A: idx % stride, C: map[string]int{"listflood": 120}[p.sweep]}}
 		cj, _ := json.Marshal(cfg)
 		return &Trace{World: "W-DEC", Cfg: cj, Ops: ops}
 	}
@@ -101,7 +116,7 @@ func (decWorld) Gen(prop, tier string, idx int, r *Rng) *Trace {
 	cfg.Signers = []SignerSpec{genSignerSpec(r, true)}
 	nMsg := r.Range(1, 4)
 	for i := 0; i < nMsg; i++ {
-		m := DecMsg{Kind: decMsgKinds[r.Intn(len(decMsgKinds))], Claims: r.Intn(nClaims), Shape: r.Intn(5)}
+		m := DecMsg{Kind: decMsgKinds[r.Intn(len(decMsgKinds))], Claims: r.Intn(nClaims), Shape: r.Intn(nShapes)}
 		if prop == "C06" && r.Chance(1, 4) {
 			m.Big = []int{1000, 8000, 30000, 60000}[r.Intn(4)]
 		}
@@ -146,7 +161,7 @@ func (decWorld) Gen(prop, tier string, idx int, r *Rng) *Trace {
 				case "byz.members":
 					fo = Op{K: "fault", F: k, A: []int{30, 300, 3000, 12000}[r.Intn(4)]}
 				case "byz.profile":
-					fo = Op{K: "fault", F: k, A: r.Intn(10)}
+					fo = Op{K: "fault", F: k, A: r.Intn(12)}
 				default:
 					fo = genNetFault(r, []string{k}, nMsg)
 				}
@@ -521,7 +536,10 @@ type decEntry struct {
 }
 
 type decState struct {
-	reusedEv *psatoken.Evidence
+	reusedEv   *psatoken.Evidence
+	reusedP1   *psatoken.P1Claims
+	reusedP2   *psatoken.P2Claims
+	reusedCont *psatoken.SwComponents[*psatoken.SwComponent]
 }
 
 var decEntries = []decEntry{
@@ -573,9 +591,39 @@ var decEntries = []decEntry{
 		err := c.UnmarshalJSON(b)
 		return func() { postClaims(c) }, err
 	}},
+	// long-lived targets refilled for every incoming message
+	{"P1Claims.UnmarshalCBOR(reused)", func(b []byte, st *decState) (func(), error) {
+		err := st.reusedP1.UnmarshalCBOR(b)
+		return func() { postClaims(st.reusedP1) }, err
+	}},
+	{"P1Claims.UnmarshalJSON(reused)", func(b []byte, st *decState) (func(), error) {
+		err := st.reusedP1.UnmarshalJSON(b)
+		return func() { postClaims(st.reusedP1) }, err
+	}},
+	{"P2Claims.UnmarshalCBOR(reused)", func(b []byte, st *decState) (func(), error) {
+		err := st.reusedP2.UnmarshalCBOR(b)
+		return func() { postClaims(st.reusedP2) }, err
+	}},
+	{"P2Claims.UnmarshalJSON(reused)", func(b []byte, st *decState) (func(), error) {
+		err := st.reusedP2.UnmarshalJSON(b)
+		return func() { postClaims(st.reusedP2) }, err
+	}},
+	{"SwComponents.UnmarshalCBOR(reused)", func(b []byte, st *decState) (func(), error) {
+		err := st.reusedCont.UnmarshalCBOR(b)
+		return func() { postContainer(st.reusedCont) }, err
+	}},
+	{"SwComponents.UnmarshalJSON(reused)", func(b []byte, st *decState) (func(), error) {
+		err := st.reusedCont.UnmarshalJSON(b)
+		return func() { postContainer(st.reusedCont) }, err
+	}},
 	{"NewClaims(P1).UnmarshalCBOR", func(b []byte, st *decState) (func(), error) {
 		c, _ := psatoken.NewClaims(psatoken.Profile1Name)
 		err := c.(*psatoken.P1Claims).UnmarshalCBOR(b)
+		return func() { postClaims(c) }, err
+	}},
+	{"NewClaims(P2).UnmarshalCBOR", func(b []byte, st *decState) (func(), error) {
+		c, _ := psatoken.NewClaims(psatoken.Profile2Name)
+		err := c.(*psatoken.P2Claims).UnmarshalCBOR(b)
 		return func() { postClaims(c) }, err
 	}},
 	{"NewClaims(P2).UnmarshalJSON", func(b []byte, st *decState) (func(), error) {
@@ -636,7 +684,7 @@ var decEntries = []decEntry{
 }
 
 func init() {
-	for k := 0; k < 5; k++ {
+	for k := 0; k < nShapes; k++ {
 		k := k
 		decEntries = append(decEntries,
 			decEntry{fmt.Sprintf("encoding.PopulateStructFromCBOR(shape%d)", k), func(b []byte, st *decState) (func(), error) {
@@ -774,7 +822,8 @@ func (decWorld) Exec(prop string, t *Trace) *Result {
 			slots[fmt.Sprintf("m%d", i)] = s
 		}
 	}
-	st := &decState{reusedEv: &psatoken.Evidence{}}
+	st := &decState{reusedEv: &psatoken.Evidence{}, reusedP1: &psatoken.P1Claims{CanonicalProfile: psatoken.Profile1Name},
+		reusedP2: &psatoken.P2Claims{CanonicalProfile: psatoken.Profile2Name}, reusedCont: &psatoken.SwComponents[*psatoken.SwComponent]{}}
 	bud := &decBudget{on: prop == "C06"}
 	nontrivial := 0
 	shape := ""
@@ -858,7 +907,10 @@ func (decWorld) Exec(prop string, t *Trace) *Result {
 			var fm0, fm1 runtime.MemStats
 			runtime.GC()
 			runtime.ReadMemStats(&fm0)
-			const floodDocs = 2000
+			floodDocs := 2000
+			if op.C > 0 {
+				floodDocs = op.C // fewer, larger documents (long component lists)
+			}
 			for n := 0; n < floodDocs; n++ {
 				if journal && n%64 == 63 {
 					fmt.Fprintf(os.Stderr, "AT %d\n", i)
@@ -902,7 +954,8 @@ func (decWorld) Exec(prop string, t *Trace) *Result {
 				grown = int(fm1.HeapAlloc - fm0.HeapAlloc)
 			}
 			res.Probes["max_heap_growth_after_flood"] = grown
-			if prop == "C06" && grown > 4<<20 {
+			// budget: 1 MiB + 8 x one document (the long-lived decode targets legitimately hold one document's worth)
+			if prop == "C06" && grown > 1<<20+8*(len(s.cur)+600) {
 				res.violate("C06", "memory-retained-across-calls", "", i, "after decoding %d small %s documents (about %d bytes each) and a garbage collection, the live heap is %d bytes larger than before: decoding retains memory in proportion to the inputs it has seen", floodDocs, s.kind, len(s.cur)+400, grown)
 			}
 			res.Faults["byz.members"] += floodDocs
